@@ -245,6 +245,9 @@ pub struct RunSpec {
     pub spurious: u8,
     /// Director may drop the call / stream midway.
     pub allow_drop: bool,
+    /// Stream consumer takes everything the stream offers before dropping anything (so that many
+    /// FnRefs are outstanding and can be dropped in bulk between two polls).
+    pub greedy: bool,
 }
 
 impl RunSpec {
@@ -261,6 +264,7 @@ impl RunSpec {
             batch: false,
             spurious: 0,
             allow_drop: false,
+            greedy: false,
         }
     }
     pub fn fails(&self, f: usize) -> bool {
@@ -352,6 +356,9 @@ impl RunSpec {
             i = j;
         }
         write!(s, ";batch={};spur={};drop={}", self.batch as u8, self.spurious, self.allow_drop as u8).unwrap();
+        if self.greedy {
+            s.push_str(";greedy=1");
+        }
         s
     }
 
@@ -411,6 +418,7 @@ impl RunSpec {
                 "batch" => r.batch = v == "1",
                 "spur" => r.spurious = v.parse().map_err(|_| "bad spur")?,
                 "drop" => r.allow_drop = v == "1",
+                "greedy" => r.greedy = v == "1",
                 _ => return Err(format!("unknown key {k}")),
             }
         }
